@@ -16,7 +16,8 @@ LEVEL_TEXT = ('Decides clauses C05-a/b: every field of Request (and of request H
               'end, the close flag is read before the handler can touch the request, acted on after the send and true only on paths where the Connection value compar'
               'ed equal to `close` (any other value keeps the session, so the requests that follow are answered), and nothing is spawned inside the loop (one read->s'
               "end chain per iteration, hence responses in request order). Within each clear() a field's reset runs under no condition other than that the field itse"
-              "lf holds something (no early return on another field's state). Decides these clauses, not non-observability for all request histories.")
+              "lf holds something (no early return on another field's state). After read() answered Err, neither the next iteration nor the loop exit is reached with"
+              'out Response::send (path form). Decides these clauses, not non-observability for all request histories.')
 
 # field -> reason it needs no reset
 EXEMPT = {
